@@ -5,7 +5,7 @@
    This file contains only statements closed by `exact`, their assumptions and non-vacuity examples.
    Generated once by tools/genprops.py from the proved lemmas (statements restated verbatim). *)
 From Coq Require Import List NArith ZArith Bool Lia Sorting.Sorted Sorting.Permutation.
-From Viv Require Import Model.Sched Model.SchedC Proofs.Sched_defs Proofs.Sched_clock_proofs Proofs.Sched_once_proofs Proofs.SchedC_witness Proofs.Sched_perm_proofs Model.Views Proofs.Views_proofs.
+From Viv Require Import Model.Sched Model.SchedC Proofs.Sched_defs Proofs.Sched_clock_proofs Proofs.Sched_once_proofs Proofs.SchedC_witness Proofs.Sched_perm_proofs Model.Views Proofs.Views_proofs Model.Steps Proofs.Steps_proofs Proofs.StepsPerm_proofs.
 Import ListNotations.
 Open Scope Z_scope.
 
@@ -182,6 +182,29 @@ Theorem C04_send_updates_inv :
          Inv S R refs st' /\ Forall (ev_ok R) ev.
 Proof. exact @send_updates_inv. Qed.
 Print Assumptions C04_send_updates_inv.
+
+(* LISTING ORDER OF FLOW STEPS IS MOOT: two step graphs with the same steps and the same dependencies, added in any order, give the same execution layers (legacy derivers keep their declaration order by design) *)
+Theorem C04_layers_listing_order_moot :
+  forall g g' : sgraph,
+         seq g = seq g' ->
+         NoDup (gnodes g) ->
+         Permutation (gnodes g) (gnodes g') ->
+         (forall e : node * node, In e (gedges g) <-> In e (gedges g')) -> layers g = layers g'.
+Proof. exact @layers_listing_order_moot. Qed.
+Print Assumptions C04_layers_listing_order_moot.
+
+(* ... hence the same step phase: same invocations with the same states in the same order, same final state *)
+Theorem C04_run_phase_listing_order_moot :
+  forall (Sg U : Type) (step_fn : node -> Sg -> U)
+           (apply1 : Sg -> list node -> node -> U -> Sg * list node) (g g' : sgraph) 
+           (s : Sg) (live : list node),
+         seq g = seq g' ->
+         NoDup (gnodes g) ->
+         Permutation (gnodes g) (gnodes g') ->
+         (forall e : node * node, In e (gedges g) <-> In e (gedges g')) ->
+         run_phase Sg U step_fn apply1 g s live = run_phase Sg U step_fn apply1 g' s live.
+Proof. exact @run_phase_listing_order_moot. Qed.
+Print Assumptions C04_run_phase_listing_order_moot.
 
 
 (* ---- non-vacuity: a reachable state of a concrete composite meets the hypotheses ---- *)
